@@ -6,14 +6,20 @@ Decides (from the syntax trees of auth/auth/*.py and hailtop/config/deploy_confi
       session is, on every CFG path from the tainted definition of that value to the redirect, preceded by `validate_next_page_url(<that value>)`
       that returned normally (leaving the validation through an exception edge into a handler that falls through does not count)
   R2  the same for what the service accepts into the session: `session['next'] = x`
-  R3  validator decision list (locals expanded; options of the validator bound, by constant propagation, to the values the call sites pass):
-      the truth table over the extracted tests enumerates every accepting path; a path is fine iff it has established
-      `urlparse(next).netloc in <netlocs of the statement's services batch/auth/ci/monitoring>` (or `next.startswith(<their origin>/)`), or its
-      conditions confine the value to prefix classes that cannot name a host for a browser (first character `/`, second none of `/ \ TAB LF CR`).
+  R3  validator decision list (module-level helpers seen through: statement-level calls inlined by engines.inline, calls in expression position - a
+      host-extracting helper, a predicate with early returns - replaced by the expression they return; locals and module constants expanded; options of
+      the validator bound, by constant propagation, to the values the call sites pass): the truth table over the extracted tests enumerates every
+      accepting path.  The allow-list side of every comparison is evaluated to an abstract value (Allow: external_url(<service>, <constant path>) /
+      urlparse(<that>).<attr> / string operations on top / collections, comprehensions and tuples of those, bound comprehension variables).  A path is
+      fine iff it has established `urlparse(next).netloc in|== <netlocs of the statement's services batch/auth/ci/monitoring>`, `next ==|in <their own
+      URLs>` or `next.startswith(<their URL whose authority is terminated by / ? #>)`, or its conditions confine the value to prefix classes that cannot
+      name a host for a browser (first character `/`, second none of `/ \ TAB LF CR`).
       Every other accepting path whose conditions are all in the closed table of recognised shapes is a VIOLATION: emptiness of urlparse
-      fields, scheme tests, `.hostname` instead of `.netloc`, split/strip-ped netloc, endswith, substring, prefix of the raw URL with an
-      unterminated origin, prefix of the netloc - each with the known verdict "does not confine the host" and a generic witness schema.
-      A path with a condition outside the table is an analysis error.  A widened service list is a violation.
+      fields, scheme tests, `.hostname` instead of `.netloc`, a split / partition / slice of the netloc (also when hidden in a helper applied to both
+      sides), endswith, substring, prefix of the raw URL with an unterminated origin (also through a local list of roots / a tuple), prefix of the
+      netloc - each with the known verdict "does not confine the host" and a generic witness schema.
+      A path with a condition outside the table (case folding, strip / removesuffix, regular expressions, foreign parsers, a statement-level call of a
+      function that cannot be seen through) is an analysis error.  A widened service list is a violation.
       Only AFTER a violation is established a concrete example is printed: the first string of a small corpus that satisfies the failing
       path's conditions (our own evaluator of the string operations) and that the browser model resolves to a foreign host - illustration, never
       a basis for a verdict.
@@ -384,47 +390,328 @@ def _scan_function(ctx: Ctx, m: pf.Module, qual: str, fn: pf.FuncDef, imports: D
 
 
 # --------------------------------------------------------------------------------------
-# validator shape
+# validator shape: helpers seen through, the allow-list side of a comparison as an abstract value
 # --------------------------------------------------------------------------------------
 
-
-def _is_urlparse_netloc(fn: pf.FuncDef, e: ast.AST, imports: Dict[str, str]) -> Optional[ast.expr]:
-    """`urlparse(x).netloc` -> x"""
-    e = pf.resolve_expr(fn, e)
-    if isinstance(e, ast.Attribute) and e.attr == 'netloc' and isinstance(e.value, ast.Call) and len(e.value.args) >= 1:
-        f = pf.dotted(e.value.func) or ''
-        origin = imports.get(f.split('.')[0], '')
-        if f.split('.')[-1] in ('urlparse', 'urlsplit') and origin.startswith('urllib'):
-            return e.value.args[0]
-    return None
+_HARMLESS_CALLS = ('log.', 'logging.', 'logger.', 'print')
 
 
-def _domains_list(ctx: Ctx, fn: pf.FuncDef, e: ast.AST, imports: Dict[str, str]) -> Optional[List[str]]:
-    """[urlparse(deploy_config.external_url(s, <path>)).netloc for s in <list of constant service names>] -> the names."""
-    e = pf.resolve_expr(fn, e)
-    if isinstance(e, (ast.ListComp, ast.SetComp, ast.GeneratorExp)) and len(e.generators) == 1 and not e.generators[0].ifs:
-        g = e.generators[0]
-        if not isinstance(g.target, ast.Name):
-            return None
-        inner = _is_urlparse_netloc(fn, e.elt, imports) if not isinstance(e.elt, ast.Name) else None
-        if inner is None or not isinstance(inner, ast.Call) or (pf.dotted(inner.func) or '').split('.')[-1] != 'external_url':
-            return None
-        if not (inner.args and isinstance(inner.args[0], ast.Name) and inner.args[0].id == g.target.id):
-            return None
-        it = pf.resolve_expr(fn, g.iter)
-        if isinstance(it, (ast.List, ast.Tuple, ast.Set)) and all(pf.const_str(x) is not None for x in it.elts):
-            return [pf.const_str(x) for x in it.elts]  # type: ignore[misc]
-        return None
-    if isinstance(e, (ast.List, ast.Tuple, ast.Set)):
-        names = []
-        for x in e.elts:
-            inner = _is_urlparse_netloc(fn, x, imports)
-            if not (isinstance(inner, ast.Call) and (pf.dotted(inner.func) or '').split('.')[-1] == 'external_url' and inner.args
-                    and pf.const_str(inner.args[0]) is not None):
+def _helper_defs(m: pf.Module) -> Dict[str, pf.FuncDef]:
+    """Module-level plain functions (candidates for seeing through a call)."""
+    return {f.name: f for f in m.tree.body if isinstance(f, ast.FunctionDef) and f.name != VALIDATOR}
+
+
+def _stmts_to_expr(h: pf.FuncDef, stmts: List[ast.stmt], env: Dict[str, ast.expr]) -> Optional[ast.expr]:
+    """The value a side-effect free helper body returns, as one expression (IfExp for branches); None when the body is anything else."""
+    import copy
+
+    def subst(e: ast.expr) -> ast.expr:
+        class _S(ast.NodeTransformer):
+            def visit_Name(self, node: ast.Name):
+                if isinstance(node.ctx, ast.Load) and node.id in env:
+                    return copy.deepcopy(env[node.id])
+                return node
+        return _S().visit(copy.deepcopy(e))
+    for i, st in enumerate(stmts):
+        rest = stmts[i + 1:]
+        if isinstance(st, ast.Expr) and isinstance(st.value, ast.Constant):
+            continue
+        if isinstance(st, ast.Expr) and isinstance(st.value, ast.Call) and (pf.dotted(st.value.func) or '').startswith(_HARMLESS_CALLS):
+            continue
+        if isinstance(st, ast.Pass):
+            continue
+        if isinstance(st, ast.Return):
+            return subst(st.value) if st.value is not None else ast.Constant(value=None)
+        if isinstance(st, (ast.Assign, ast.AnnAssign)):
+            tgt = st.targets[0] if isinstance(st, ast.Assign) and len(st.targets) == 1 else (st.target if isinstance(st, ast.AnnAssign) else None)
+            if not isinstance(tgt, ast.Name) or st.value is None or isinstance(st.value, (ast.Await, ast.Yield, ast.YieldFrom)):
                 return None
-            names.append(pf.const_str(inner.args[0]))
-        return names  # type: ignore[return-value]
-    return None
+            if len(pf.assignments(h).get(tgt.id, [])) != 1:
+                return None
+            env = dict(env, **{tgt.id: subst(st.value)})
+            continue
+        if isinstance(st, ast.If):
+            a = _stmts_to_expr(h, list(st.body) + list(rest), env)
+            b = _stmts_to_expr(h, list(st.orelse) + list(rest), env)
+            if a is None or b is None:
+                return None
+            return ast.IfExp(test=subst(st.test), body=a, orelse=b)
+        return None
+    return ast.Constant(value=None)
+
+
+class _ExprInliner(ast.NodeTransformer):
+    """Replace `h(args)` in expression position by the expression a side-effect free module-level helper `h` returns (parameters substituted).
+    Calls that do not fit stay (and are then met by `_atom_shape` as something outside the table)."""
+
+    def __init__(self, helpers: Dict[str, pf.FuncDef], stack: Tuple[str, ...] = ()):
+        self.helpers, self.stack = helpers, stack
+        self.seen: List[str] = []
+
+    def visit_Call(self, node: ast.Call):
+        import copy
+        node = self.generic_visit(node)  # type: ignore[assignment]
+        if not (isinstance(node.func, ast.Name) and node.func.id in self.helpers):
+            return node
+        name = node.func.id
+        h = self.helpers[name]
+        a = h.args
+        if name in self.stack or len(self.stack) >= 3 or h.decorator_list or a.vararg or a.kwarg or a.posonlyargs \
+                or any(isinstance(x, ast.Starred) for x in node.args) or any(k.arg is None for k in node.keywords):
+            return node
+        if any(isinstance(x, (ast.Yield, ast.YieldFrom, ast.Await, ast.Global, ast.Nonlocal, ast.NamedExpr)) for x in pf.walk_shallow(h)):
+            return node
+        params = [x.arg for x in a.args]
+        kwonly = [x.arg for x in a.kwonlyargs]
+        if len(node.args) > len(params):
+            return node
+        bound: Dict[str, ast.expr] = dict(zip(params, node.args))
+        for k in node.keywords:
+            if k.arg in bound or k.arg not in params + kwonly:
+                return node
+            bound[k.arg] = k.value  # type: ignore[index]
+        defaults = dict(zip(params[len(params) - len(a.defaults):], a.defaults))
+        defaults.update({q: d for q, d in zip(kwonly, a.kw_defaults) if d is not None})
+        for q in params + kwonly:
+            if q not in bound:
+                if q not in defaults or not isinstance(defaults[q], ast.Constant):
+                    return node
+                bound[q] = defaults[q]
+        if any(isinstance(n, ast.Name) and isinstance(n.ctx, ast.Store) and n.id in bound for n in pf.walk_shallow(h)):
+            return node  # a parameter is rebound
+        e = _stmts_to_expr(h, list(h.body), {})
+        if e is None:
+            return node
+        # no capture: a comprehension variable of the helper must not shadow a name the arguments read
+        comp_vars = {n.id for c in ast.walk(e) if isinstance(c, ast.comprehension) for n in ast.walk(c.target) if isinstance(n, ast.Name)}
+        if comp_vars & (set(bound) | {n.id for v in bound.values() for n in ast.walk(v) if isinstance(n, ast.Name)}):
+            return node
+        if any(isinstance(n, ast.Lambda) for n in ast.walk(e)):
+            return node
+
+        class _P(ast.NodeTransformer):
+            def visit_Name(self, n: ast.Name):
+                if isinstance(n.ctx, ast.Load) and n.id in bound:
+                    return copy.deepcopy(bound[n.id])
+                return n
+        e = _P().visit(e)
+        self.seen.append(name)
+        sub = _ExprInliner(self.helpers, self.stack + (name,))
+        out = sub.visit(e)
+        self.seen.extend(sub.seen)
+        return ast.copy_location(out, node)
+
+
+def _boolify(e: ast.AST) -> ast.AST:
+    """A test with conditional expressions turned into and/or/not structure (so that their leaves become the atoms of the truth table)."""
+    if isinstance(e, ast.BoolOp):
+        return ast.copy_location(ast.BoolOp(op=e.op, values=[_boolify(v) for v in e.values]), e)
+    if isinstance(e, ast.UnaryOp) and isinstance(e.op, ast.Not):
+        return ast.copy_location(ast.UnaryOp(op=ast.Not(), operand=_boolify(e.operand)), e)
+    if isinstance(e, ast.IfExp):
+        import copy
+        c, a, b = _boolify(e.test), _boolify(e.body), _boolify(e.orelse)
+        left = ast.BoolOp(op=ast.And(), values=[c, a])
+        right = ast.BoolOp(op=ast.And(), values=[ast.UnaryOp(op=ast.Not(), operand=copy.deepcopy(c)), b])
+        return ast.fix_missing_locations(ast.copy_location(ast.BoolOp(op=ast.Or(), values=[left, right]), e))
+    if isinstance(e, ast.Call) and isinstance(e.func, ast.Name) and e.func.id == 'bool' and len(e.args) == 1 and not e.keywords:
+        return _boolify(e.args[0])
+    # any(a or b for v in it) == any(a for v in it) or any(b for v in it);  all(a and b for ...) == all(a for ...) and all(b for ...)
+    if isinstance(e, ast.Call) and isinstance(e.func, ast.Name) and e.func.id in ('any', 'all') and len(e.args) == 1 and not e.keywords \
+            and isinstance(e.args[0], (ast.GeneratorExp, ast.ListComp)) and isinstance(e.args[0].elt, ast.BoolOp) \
+            and isinstance(e.args[0].elt.op, ast.Or if e.func.id == 'any' else ast.And):
+        import copy
+        gen = e.args[0]
+        parts = [ast.Call(func=ast.Name(id=e.func.id, ctx=ast.Load()), args=[ast.GeneratorExp(elt=copy.deepcopy(v), generators=copy.deepcopy(gen.generators))], keywords=[])
+                 for v in gen.elt.values]
+        return ast.fix_missing_locations(ast.copy_location(ast.BoolOp(op=ast.Or() if e.func.id == 'any' else ast.And(), values=[_boolify(x) for x in parts]), e))
+    return e
+
+
+def _prepare_validator(ctx: Ctx, m: pf.Module) -> Tuple[pf.FuncDef, List[str]]:
+    """A copy of the validator with its module-level helpers seen through: statement-level calls by engines.inline, calls in expression
+    position (a host-extracting helper, a predicate) by substitution of the helper's returned expression; locals of tests expanded."""
+    from engines import inline
+    helpers = _helper_defs(m)
+    m2, il = inline.inline_functions(m, VALIDATOR)
+    fn = m2.func(VALIDATOR)
+    xi = _ExprInliner(helpers, (VALIDATOR,))
+    fn.body = [xi.visit(st) for st in fn.body]
+    ast.fix_missing_locations(fn)
+    for n in ast.walk(fn):
+        if isinstance(n, ast.If):
+            t = _boolify(n.test)
+            # a boolean held in a local (`ok = <test>` ... `if not ok`): bring the test back so that its leaves are atoms
+            for _ in range(3):
+                t2 = _expand_leaf_names(fn, t)
+                if t2 is t:
+                    break
+                t = _boolify(t2)
+            n.test = t
+    ast.fix_missing_locations(fn)
+    # a call of a module-level function that could not be seen through and receives the value under validation: undecidable
+    for c in pf.calls_in(fn):
+        if isinstance(c.func, ast.Name) and c.func.id in helpers:
+            why = next((w for nm, _l, w in il.skipped if nm == c.func.id), 'not a side-effect free single-expression helper')
+            raise AnalysisError(f'{VALIDATOR}: the helper call `{short(pf.nsrc(c), 60)}` cannot be seen through ({why}) - cannot decide')
+    return fn, sorted(set([nm for nm, _ in il.inlined] + xi.seen))
+
+
+def _expand_leaf_names(fn: pf.FuncDef, t: ast.AST) -> ast.AST:
+    import copy
+    if isinstance(t, ast.BoolOp):
+        vals = [_expand_leaf_names(fn, v) for v in t.values]
+        return t if all(a is b for a, b in zip(vals, t.values)) else ast.copy_location(ast.BoolOp(op=t.op, values=vals), t)
+    if isinstance(t, ast.UnaryOp) and isinstance(t.op, ast.Not):
+        o = _expand_leaf_names(fn, t.operand)
+        return t if o is t.operand else ast.copy_location(ast.UnaryOp(op=ast.Not(), operand=o), t)
+    if isinstance(t, ast.Name):
+        d = pf.single_def(fn, t.id)
+        if d is not None and isinstance(d, ast.expr) and isinstance(d, (ast.BoolOp, ast.UnaryOp, ast.IfExp, ast.Compare, ast.Call)):
+            return copy.deepcopy(d)
+    return t
+
+
+class Allow:
+    """Abstract value of an expression built from the deployment's own URLs:
+       kind 'url'   deploy_config.external_url(<service>, <constant path>) (+ constant suffix)      -> services, path
+       kind 'part'  urlparse(<url>).<attr>                                                         -> services, attr
+       ops          string operations applied on top (method names / '[]'), outermost first
+       coll         a collection (list / set / tuple / generator) of such values instead of one value"""
+
+    def __init__(self, kind: str, services: List[str], path: str = '', attr: str = '', ops: Tuple[str, ...] = (), coll: bool = False):
+        self.kind, self.services, self.path, self.attr, self.ops, self.coll = kind, services, path, attr, ops, coll
+
+    def same_elt(self, o: 'Allow') -> bool:
+        return (self.kind, self.path, self.attr, self.ops) == (o.kind, o.path, o.attr, o.ops)
+
+    def with_(self, **kw) -> 'Allow':
+        d = dict(kind=self.kind, services=list(self.services), path=self.path, attr=self.attr, ops=self.ops, coll=self.coll)
+        d.update(kw)
+        return Allow(**d)  # type: ignore[arg-type]
+
+
+class AllowCtx:
+    def __init__(self, m: pf.Module, fn: pf.FuncDef, imports: Dict[str, str]):
+        self.m, self.fn, self.imports = m, fn, imports
+
+    def is_urlparse(self, call: ast.AST) -> bool:
+        if not (isinstance(call, ast.Call) and len(call.args) == 1 and not call.keywords):
+            return False
+        f = pf.dotted(call.func) or ''
+        return f.split('.')[-1] in ('urlparse', 'urlsplit') and self.imports.get(f.split('.')[0], '').startswith('urllib')
+
+    def global_const(self, name: str) -> Optional[ast.expr]:
+        """The single module-level definition of a name that the function does not define itself."""
+        if name in pf.assignments(self.fn):
+            return None
+        vals = []
+        for st in ast.walk(self.m.tree):
+            if isinstance(st, (ast.Global, ast.Nonlocal)) and name in st.names:
+                return None
+        for st in self.m.tree.body:
+            if isinstance(st, ast.Assign) and any(isinstance(t, ast.Name) and t.id == name for t in st.targets):
+                vals.append(st.value)
+            elif isinstance(st, ast.AnnAssign) and isinstance(st.target, ast.Name) and st.target.id == name and st.value is not None:
+                vals.append(st.value)
+            elif isinstance(st, (ast.AugAssign, ast.For, ast.With, ast.If, ast.Try, ast.While)) and any(
+                    isinstance(n, ast.Name) and n.id == name and isinstance(n.ctx, ast.Store) for n in ast.walk(st)):
+                return None
+        return vals[0] if len(vals) == 1 else None
+
+    def const_strs(self, e: ast.AST, env: Dict[str, object]) -> Optional[List[str]]:
+        """A literal collection of constant strings (through single-definition locals and module constants)."""
+        e = self.deref(e, env)
+        if isinstance(e, ast.Call) and isinstance(e.func, ast.Name) and e.func.id in ('list', 'tuple', 'set', 'frozenset', 'sorted') and len(e.args) == 1 and not e.keywords:
+            return self.const_strs(e.args[0], env)
+        if isinstance(e, (ast.List, ast.Tuple, ast.Set)) and e.elts and all(pf.const_str(x) is not None for x in e.elts):
+            return [pf.const_str(x) for x in e.elts]  # type: ignore[misc]
+        return None
+
+    def deref(self, e: ast.AST, env: Dict[str, object]) -> ast.AST:
+        for _ in range(4):
+            if isinstance(e, ast.Name) and e.id not in env:
+                d = pf.single_def(self.fn, e.id)
+                if d is not None and isinstance(d, ast.expr):
+                    e = d
+                    continue
+                g = self.global_const(e.id)
+                if g is not None:
+                    e = g
+                    continue
+            break
+        return e
+
+    def value(self, e: ast.AST, env: Optional[Dict[str, object]] = None) -> Optional[Allow]:  # noqa: C901
+        """Abstract value of e; env binds comprehension variables to an Allow (element of an allowed collection) or to a list of service names."""
+        env = env or {}
+        if isinstance(e, ast.Name) and e.id in env:
+            v = env[e.id]
+            return v if isinstance(v, Allow) else None
+        e = self.deref(e, env)
+        if isinstance(e, ast.Name):
+            return None
+        if isinstance(e, ast.Call):
+            f = pf.dotted(e.func) or ''
+            if f.split('.')[-1] == 'external_url' and len(e.args) == 2 and not e.keywords and pf.const_str(e.args[1]) is not None:
+                a0 = e.args[0]
+                if pf.const_str(a0) is not None:
+                    return Allow('url', [pf.const_str(a0)], pf.const_str(e.args[1]))  # type: ignore[list-item,arg-type]
+                if isinstance(a0, ast.Name) and isinstance(env.get(a0.id), list):
+                    return Allow('url', list(env[a0.id]), pf.const_str(e.args[1]))  # type: ignore[arg-type,call-overload]
+                return None
+            if isinstance(e.func, ast.Name) and e.func.id in ('list', 'tuple', 'set', 'frozenset', 'sorted') and len(e.args) == 1 and not e.keywords:
+                v = self.value(e.args[0], env)
+                return v if v is not None and v.coll else None
+            if isinstance(e.func, ast.Attribute) and not e.keywords and all(isinstance(a, ast.Constant) for a in e.args):
+                v = self.value(e.func.value, env)
+                if v is not None and not v.coll:
+                    return v.with_(ops=(e.func.attr,) + v.ops)
+            return None
+        if isinstance(e, ast.Attribute):
+            if self.is_urlparse(e.value):
+                v = self.value(e.value.args[0], env)  # type: ignore[attr-defined]
+                if v is not None and v.kind == 'url' and not v.ops and not v.coll:
+                    return Allow('part', v.services, attr=e.attr)
+            return None
+        if isinstance(e, ast.Subscript) and (isinstance(e.slice, (ast.Constant, ast.Slice)) or (isinstance(e.slice, ast.UnaryOp) and isinstance(e.slice.operand, ast.Constant))):
+            v = self.value(e.value, env)
+            if v is not None and not v.coll:
+                return v.with_(ops=('[]',) + v.ops)
+            return None
+        if isinstance(e, ast.BinOp) and isinstance(e.op, ast.Add) and pf.const_str(e.right) is not None:
+            v = self.value(e.left, env)
+            if v is not None and v.kind == 'url' and not v.ops and not v.coll:
+                return v.with_(path=v.path + pf.const_str(e.right))  # type: ignore[operator]
+            return None
+        if isinstance(e, ast.JoinedStr) and e.values and isinstance(e.values[0], ast.FormattedValue) and e.values[0].format_spec is None \
+                and e.values[0].conversion == -1 and all(isinstance(x, ast.Constant) for x in e.values[1:]):
+            v = self.value(e.values[0].value, env)
+            if v is not None and v.kind == 'url' and not v.ops and not v.coll:
+                return v.with_(path=v.path + ''.join(str(x.value) for x in e.values[1:]))  # type: ignore[attr-defined]
+            return None
+        if isinstance(e, (ast.List, ast.Tuple, ast.Set)) and e.elts:
+            vs = [self.value(x, env) for x in e.elts]
+            if any(v is None or v.coll for v in vs) or not all(vs[0].same_elt(v) for v in vs):  # type: ignore[union-attr,arg-type]
+                return None
+            return vs[0].with_(services=sorted({s for v in vs for s in v.services}), coll=True)  # type: ignore[union-attr]
+        if isinstance(e, (ast.ListComp, ast.SetComp, ast.GeneratorExp)) and len(e.generators) == 1 and not e.generators[0].ifs \
+                and not e.generators[0].is_async and isinstance(e.generators[0].target, ast.Name):
+            g = e.generators[0]
+            env2 = dict(env)
+            names = self.const_strs(g.iter, env)
+            if names is not None:
+                env2[g.target.id] = names
+            else:
+                src = self.value(g.iter, env)
+                if src is None or not src.coll:
+                    return None
+                env2[g.target.id] = src.with_(coll=False)
+            v = self.value(e.elt, env2)
+            if v is None or v.coll:
+                return None
+            return v.with_(coll=True)
+        return None
 
 
 # --------------------------------------------------------------------------------------
@@ -862,7 +1149,7 @@ _NONCONF = {
     'scheme': ('tests the scheme only', 'https://evil.example/'),
     'hostname': ('compares urlparse().hostname, which Python takes after the last `@` even when a `\\` (a path separator for browsers) precedes it',
                  'https://evil.example\\@{good}/'),
-    'transformed-netloc': ('compares only a part of the netloc (split / strip / partition): the rest - userinfo@, :port - is where the real host hides', 'https://{good}@evil.example/'),
+    'transformed-netloc': ('compares only a part of the netloc (split / partition / slice): the discarded rest - after a `:` or `@` - is where the real host hides', 'https://{good}@evil.example/  or  https://{good}:x@evil.example/'),
     'suffix': ('is a suffix test: any host or URL that merely ends with an allowed name passes', 'https://evil{good}/  or  https://evil.example/?{good}'),
     'substring': ('is a substring test: the allowed name can sit in the path, query or a longer host', 'https://evil.example/?{good}'),
     'origin-prefix': ('is a prefix test on the raw URL with an origin that is not terminated by `/`: the authority can continue', 'https://{good}.evil.example/  or  https://{good}@evil.example/'),
@@ -894,59 +1181,70 @@ def _root(e: ast.AST, p: str, imports: Dict[str, str]) -> Optional[Tuple[str, Li
             return None
 
 
-def _origin_arg(fn: pf.FuncDef, e: ast.AST, gen_services: Dict[str, List[str]]) -> Optional[Tuple[List[str], str]]:
-    """`deploy_config.external_url(<service>, <constant path>)` -> (services, path); the service is a constant or a generator variable over constants."""
-    if isinstance(e, ast.Call) and (pf.dotted(e.func) or '').split('.')[-1] == 'external_url' and len(e.args) == 2 and not e.keywords and pf.const_str(e.args[1]) is not None:
-        a0 = e.args[0]
-        if pf.const_str(a0) is not None:
-            return [pf.const_str(a0)], pf.const_str(e.args[1])  # type: ignore[list-item,return-value]
-        if isinstance(a0, ast.Name) and a0.id in gen_services:
-            return gen_services[a0.id], pf.const_str(e.args[1])  # type: ignore[return-value]
+class Shape:
+    def __init__(self, kind: str, sub: str = '', x: str = '', services: Optional[List[str]] = None, neg: bool = False):
+        # neg: the atom being TRUE means the value is NOT a member (`not in`, `!=`, all(... != ...))
+        self.kind, self.sub, self.x, self.services, self.neg = kind, sub, x, services, neg
+
+
+_PART_OPS = ('split', 'rsplit', 'partition', 'rpartition', 'splitlines', '[]')
+
+
+def _exact_shape(rv: Tuple[str, List[str]], al: Allow, neg: bool, subject: str) -> Optional[Shape]:
+    """Equality of a value derived from the parameter (`_root` descriptor rv) with ONE element of the allow-side value `al`."""
+    root, ops = rv
+    if al.kind == 'part':
+        if root == 'attr:netloc' and not ops:
+            if al.attr == 'netloc' and not al.ops:
+                return Shape('member', services=al.services, neg=neg)
+            return None  # exact netloc against something else than the services' netlocs: not in the table
+        if root == 'attr:hostname':
+            return Shape('nonconf', 'hostname')
+        if root in ('attr:netloc', 'raw') and any(o in _PART_OPS for o in ops):
+            return Shape('nonconf', 'transformed-netloc', subject)  # only a part of the authority / of the URL is compared
+        # case folding, strip / removesuffix / replace of an otherwise exact test (may be harmless: `:443` removed, trailing dot): not in the table
+        return None
+    if al.kind == 'url':
+        if rv == ('raw', []) and not al.ops:
+            return Shape('member', services=al.services, neg=neg)  # the whole value IS one of the deployment's own URLs
+        return None
     return None
 
 
-class Shape:
-    def __init__(self, kind: str, sub: str = '', x: str = '', services: Optional[List[str]] = None):
-        self.kind, self.sub, self.x, self.services = kind, sub, x, services
-
-
-def _atom_shape(ctx: Ctx, fn: pf.FuncDef, a: ast.AST, p: str, imports: Dict[str, str], gen_services: Optional[Dict[str, List[str]]] = None,
-                gen_domains: Optional[Set[str]] = None) -> Optional[Shape]:
+def _atom_shape(actx: AllowCtx, a: ast.AST, p: str, env: Optional[Dict[str, object]] = None) -> Optional[Shape]:  # noqa: C901
     """Look an (expanded) atomic test up in the closed table."""
-    gen_services = gen_services or {}
-    gen_domains = gen_domains or set()
-
-    def is_domains(e: ast.AST) -> Optional[List[str]]:
-        return _domains_list(ctx, fn, e, imports)
-
-    def is_allowed_name(e: ast.AST) -> bool:  # one allowed netloc / a generator variable ranging over them
-        return (isinstance(e, ast.Name) and e.id in gen_domains) or (isinstance(e, ast.Attribute) and e.attr == 'netloc' and isinstance(e.value, ast.Call)
-                                                                     and e.value.args and _origin_arg(fn, e.value.args[0], gen_services) is not None)
-    # any(<elt> for v in <services | domains>) / all(...)
+    fn, imports = actx.fn, actx.imports
+    env = env or {}
+    # any(<elt> for v in <services | allowed values>) / all(...)
     if isinstance(a, ast.Call) and isinstance(a.func, ast.Name) and a.func.id in ('any', 'all') and len(a.args) == 1 and not a.keywords \
             and isinstance(a.args[0], (ast.GeneratorExp, ast.ListComp)) and len(a.args[0].generators) == 1 and not a.args[0].generators[0].ifs \
             and isinstance(a.args[0].generators[0].target, ast.Name):
         g = a.args[0].generators[0]
-        it = pf.expand_locals(fn, g.iter, 4)
-        gs, gd = dict(gen_services), set(gen_domains)
-        doms = is_domains(it)
-        if doms is not None:
-            gd.add(g.target.id)
-        elif isinstance(it, (ast.List, ast.Tuple, ast.Set)) and all(pf.const_str(x) is not None for x in it.elts):
-            gs[g.target.id] = [pf.const_str(x) for x in it.elts]  # type: ignore[misc]
+        env2 = dict(env)
+        names = actx.const_strs(g.iter, env)
+        if names is not None:
+            env2[g.target.id] = names
         else:
-            return None
+            src = actx.value(g.iter, env)
+            if src is None or not src.coll:
+                return None
+            env2[g.target.id] = src.with_(coll=False)
         elt = a.args[0].elt
         neg = False
         while isinstance(elt, ast.UnaryOp) and isinstance(elt.op, ast.Not):
             elt, neg = elt.operand, not neg
         if isinstance(elt, ast.BoolOp):
             return None
-        sh = _atom_shape(ctx, fn, pf.expand_locals(fn, elt, 4), p, imports, gs, gd)
+        sh = _atom_shape(actx, pf.expand_locals(fn, elt, 4), p, env2)
         if sh is None or sh.kind == 'prefix':
             return None
         if sh.kind in ('member', 'origin'):
-            return sh if (a.func.id == 'any' and not neg) else None
+            is_neg = sh.neg != neg
+            if a.func.id == 'any' and not is_neg:
+                return Shape(sh.kind, services=sh.services)          # some allowed value matches
+            if a.func.id == 'all' and is_neg and sh.kind == 'member':
+                return Shape(sh.kind, services=sh.services, neg=True)  # no allowed value matches
+            return None
         return sh
     # truthiness / emptiness
     r = _root(a, p, imports)
@@ -957,26 +1255,27 @@ def _atom_shape(ctx: Ctx, fn: pf.FuncDef, a: ast.AST, p: str, imports: Dict[str,
     if isinstance(a, ast.Compare) and len(a.ops) == 1:
         l, rt, op = a.left, a.comparators[0], a.ops[0]
         rl, rr = _root(l, p, imports), _root(rt, p, imports)
-        # exact membership / hostname / transformed netloc against the allow-list
+        # <value> in <allow-side>
         if isinstance(op, (ast.In, ast.NotIn)) and rl is not None:
-            doms = is_domains(rt)
-            if doms is not None or is_allowed_name(rt):
-                if doms is None:
+            al = actx.value(rt, env)
+            if al is not None:
+                if not al.coll:
                     return Shape('nonconf', 'substring', pf.nsrc(l))  # `netloc in <one allowed name>`: substring of a string
-                if rl == ('attr:netloc', []):
-                    return Shape('member', services=doms)
-                if rl[0] == 'attr:hostname':
-                    return Shape('nonconf', 'hostname')
-                if rl[0] == 'attr:netloc' and all(o in ('lower', 'casefold', 'upper') for o in rl[1]):
-                    return None  # case folding of an otherwise exact test: not in the table
-                if rl[0] in ('attr:netloc', 'raw'):
-                    return Shape('nonconf', 'transformed-netloc')
-                return None
+                return _exact_shape(rl, al, isinstance(op, ast.NotIn), pf.nsrc(l))
+        # <value> == <one allowed value>
+        if isinstance(op, (ast.Eq, ast.NotEq)):
+            for x, y, rx in ((l, rt, rl), (rt, l, rr)):
+                if rx is None:
+                    continue
+                al = actx.value(y, env)
+                if al is not None and not al.coll:
+                    return _exact_shape(rx, al, isinstance(op, ast.NotEq), pf.nsrc(x))
         # `<allowed name> in <value>`: substring
         if isinstance(op, (ast.In, ast.NotIn)) and rr is not None and rr[0] in ('raw', 'attr:netloc', 'attr:path', 'attr:hostname'):
             if rr == ('raw', []) and pf.const_str(l) is not None and len(pf.const_str(l)) == 1:  # type: ignore[arg-type]
                 return Shape('prefix')
-            if is_allowed_name(l) or pf.const_str(l) is not None:
+            al = actx.value(l, env)
+            if (al is not None and not al.coll) or pf.const_str(l) is not None:
                 return Shape('nonconf', 'substring')
             return None
         # comparisons with constants
@@ -1009,29 +1308,44 @@ def _atom_shape(ctx: Ctx, fn: pf.FuncDef, a: ast.AST, p: str, imports: Dict[str,
         if base is None:
             # `<allowed name>.startswith(p)` and the like: not in the table
             return None
-        arg = pf.expand_locals(fn, a.args[0], 4)
+        arg = a.args[0]
         if meth == 'endswith':
             return Shape('nonconf', 'suffix')
         if meth in ('find', 'rfind', 'index', 'count'):
             return Shape('nonconf', 'substring')
         if meth == 'startswith':
-            lits = [pf.const_str(arg)] if pf.const_str(arg) is not None else (
-                [pf.const_str(z) for z in arg.elts] if isinstance(arg, ast.Tuple) and all(pf.const_str(z) is not None for z in arg.elts) else None)
             if base[0] == 'attr:netloc':
                 return Shape('nonconf', 'netloc-prefix')
             if base != ('raw', []):
                 return None
+            al = actx.value(arg, env)
+            if al is not None:
+                # one allowed value or a tuple of them: the verdict is the same for every element
+                if al.kind == 'url' and not al.ops:
+                    return Shape('origin', services=al.services) if al.path[:1] in ('/', '?', '#') and al.path else Shape('nonconf', 'origin-prefix')
+                if al.kind == 'part' and al.attr in ('netloc', 'hostname'):
+                    return Shape('nonconf', 'origin-prefix')
+                return None
+            arg = pf.expand_locals(fn, arg, 4)
+            lits = [pf.const_str(arg)] if pf.const_str(arg) is not None else (
+                [pf.const_str(z) for z in arg.elts] if isinstance(arg, ast.Tuple) and all(pf.const_str(z) is not None for z in arg.elts) else None)
             if lits is not None:
                 if any('://' in k or k.lower().startswith(('http:', 'https:')) for k in lits):  # type: ignore[union-attr]
                     return None  # a hard-coded origin: cannot be related to the deployment's netlocs
                 return Shape('prefix')
-            org = _origin_arg(fn, arg, gen_services)
-            if org is not None:
-                services, path = org
-                return Shape('origin', services=services) if path.startswith('/') else Shape('nonconf', 'origin-prefix')
-            if is_allowed_name(arg):
-                return Shape('nonconf', 'origin-prefix')
             return None
+    return None
+
+
+def _opaque_call(executed: List[ast.stmt], p: str) -> Optional[ast.Call]:
+    """A statement-level call on the path that receives the value under validation and is not known to be harmless: it may be the real check."""
+    for st in executed:
+        v = st.value if isinstance(st, ast.Expr) else None
+        if isinstance(v, ast.Await):
+            v = v.value
+        if isinstance(v, ast.Call) and not (pf.dotted(v.func) or '').startswith(_HARMLESS_CALLS) \
+                and any(_mentions_param(x, p) for x in list(v.args) + [k.value for k in v.keywords]):
+            return v
     return None
 
 
@@ -1049,7 +1363,10 @@ def _const_truth(e: ast.AST, binding: Dict[str, object]) -> Optional[bool]:
 
 
 def _check_validator(ctx: Ctx, m: pf.Module, imports: Dict[str, str]) -> int:
-    fn = m.func(VALIDATOR)
+    fn, seen_through = _prepare_validator(ctx, m)
+    if seen_through:
+        ctx.extra_cov['validator_helpers_seen_through'] = seen_through
+    actx = AllowCtx(m, fn, imports)
     params = [a.arg for a in fn.args.posonlyargs + fn.args.args]
     ctx.need(len(params) >= 1 and not fn.args.vararg and not fn.args.kwarg, f'{VALIDATOR}: unexpected parameters {params}')
     p = params[0]
@@ -1087,7 +1404,7 @@ def _check_validator(ctx: Ctx, m: pf.Module, imports: Dict[str, str]) -> int:
     keys = list(by_key)
     about_value = [k for k in keys if _mentions_param(by_key[k], p)]
     on_options = [k for k in keys if k not in about_value and pf.names_in(by_key[k]) & set(extras)]
-    shapes: Dict[str, Optional[Shape]] = {k: _atom_shape(ctx, fn, by_key[k], p, imports) for k in about_value}
+    shapes: Dict[str, Optional[Shape]] = {k: _atom_shape(actx, by_key[k], p) for k in about_value}
     services: Optional[List[str]] = None
     for k in about_value:
         sh = shapes[k]
@@ -1098,10 +1415,12 @@ def _check_validator(ctx: Ctx, m: pf.Module, imports: Dict[str, str]) -> int:
         if k in about_value:
             continue
         a = by_key[k]
-        if isinstance(a, ast.Compare) and len(a.ops) == 1 and isinstance(a.ops[0], (ast.In, ast.NotIn)) and _domains_list(ctx, fn, a.comparators[0], imports) is not None:
-            subject = _is_urlparse_netloc(fn, a.left, imports)
-            if subject is not None:
-                ctx.bad('R3', cons + '::subject', f'the membership test parses `{pf.nsrc(subject)}`, not the parameter `{p}` being validated', m.path, line_of[k])
+        if isinstance(a, ast.Compare) and len(a.ops) == 1 and isinstance(a.ops[0], (ast.In, ast.NotIn)):
+            al = actx.value(a.comparators[0])
+            if al is not None and al.coll and al.kind == 'part' and isinstance(a.left, ast.Attribute) and actx.is_urlparse(a.left.value):
+                subject = a.left.value.args[0]  # type: ignore[attr-defined]
+                if actx.value(subject) is None:
+                    ctx.bad('R3', cons + '::subject', f'the membership test parses `{pf.nsrc(subject)}`, not the parameter `{p}` being validated', m.path, line_of[k])
     if services is not None:
         extra = sorted(set(services) - SERVICES)
         ctx.check(not extra, 'R3', cons + '::services',
@@ -1131,7 +1450,7 @@ def _check_validator(ctx: Ctx, m: pf.Module, imports: Dict[str, str]) -> int:
                 continue
             # does the path establish the host?
             est = [kk for kk, rr in consulted if kk in about_value and shapes[kk] is not None and shapes[kk].kind in ('member', 'origin')  # type: ignore[union-attr]
-                   and rr == (not _negated_member(by_key[kk]))]
+                   and rr == (not shapes[kk].neg)]  # type: ignore[union-attr]
             if est:
                 established_paths += 1
                 continue
@@ -1141,7 +1460,11 @@ def _check_validator(ctx: Ctx, m: pf.Module, imports: Dict[str, str]) -> int:
             conds = [(by_key[kk], rr) for kk, rr in consulted if kk in about_value]
             unknown = [kk for kk, _ in consulted if kk in about_value and shapes[kk] is None]
             if unknown:
-                undecided[sig] = unknown[0]
+                undecided[sig] = f'its condition `{short(unknown[0], 80)}` is not in the table of recognised shapes'
+                continue
+            opaque = _opaque_call(o.executed, p)
+            if opaque is not None:
+                undecided[sig] = f'the statement `{short(pf.nsrc(opaque), 60)}` on it receives the value and may be the real check (not seen through)'
                 continue
             prefix_conds = [(by_key[kk], rr) for kk, rr in consulted if kk in about_value and shapes[kk].kind == 'prefix']  # type: ignore[union-attr]
             leaving = _leaving_classes(prefix_conds, p)
@@ -1170,17 +1493,11 @@ def _check_validator(ctx: Ctx, m: pf.Module, imports: Dict[str, str]) -> int:
         return rows
     if undecided:
         sig, k = next(iter(undecided.items()))
-        raise AnalysisError(f'{VALIDATOR}: the path [{short(sig, 160)}] accepts without an exact allow-list test and its condition `{short(k, 80)}` is not in the table of '
-                            'recognised shapes - cannot decide')
+        raise AnalysisError(f'{VALIDATOR}: the path [{short(sig, 160)}] accepts without an exact allow-list test and {k} - cannot decide')
     ctx.need(established_paths + len(proven) >= 1, f'{VALIDATOR}: no accepting path (unrecognised shape)')
     ctx.ok('R3', cons + '::decision', {'rows': rows, 'tests': keys, 'services': services, 'paths_accepting_after_exact_membership': established_paths,
                                         'paths_confined_to_site_relative_values': proven})
     return rows
-
-
-def _negated_member(a: ast.AST) -> bool:
-    """The atom is written `x not in L` (true means NOT a member)."""
-    return isinstance(a, ast.Compare) and len(a.ops) == 1 and isinstance(a.ops[0], ast.NotIn)
 
 
 def _check_external_url(ctx: Ctx) -> None:
